@@ -10,7 +10,13 @@ FORMULAS = {
     "C06": ("WsRecvSeq", "WsEnd", "WsLatched", "WsEcho", "WsPong", "WsServerFrames"),
     "C05": ("WsClose",),
     "C09": ("Crash", "WsUpgrade"),
+    # on a binding with a path variable the path sets its field on the first message of the session and on no other
+    "C01": ("WsRecvSeq",),
+    # a WEBSOCKET binding declared through the service configuration with a response_body: each frame is the selected field
+    "C19": ("WsEcho",),
 }
+BIND_ONLY = {"C01": "pathvar", "C19": "respbody"}
+BINDS = ["", "pathvar", "respbody"]
 OPTSETS = [[], ["stats"], ["streamInt"], ["stats", "streamInt"]]
 
 
@@ -28,11 +34,12 @@ def design(scratch, tier):
 
 def violations(prop, tier, scratch, harness, seed, replay_cases=None):
     """returns (dict key -> violation record, stat Counter, design dict)"""
+    only = BIND_ONLY.get(prop)
     if replay_cases is not None:
         cases = [dict(c, id=i + 1) for i, c in enumerate(replay_cases)]
         des = dict(states=0, transitions=0)
     else:
-        des = design(scratch, tier)
+        des = design(scratch, tier) if only is None else dict(states=0, transitions=0)
         g = C.tlc(scratch, "WsSession_Gen.tla", "WsSession_Gen.cfg" if tier == "quick" else "WsSession_GenBig.cfg", workers=1, timeout=1500, tag="wsgen")
         raw = list(C.printed(g["out"], "CASE"))
         if len(raw) < 1000:
@@ -41,7 +48,11 @@ def violations(prop, tier, scratch, harness, seed, replay_cases=None):
         cases = []
         for i, c in enumerate(raw):
             fr = c["frames"] if isinstance(c["frames"], list) else []     # ToJson prints the empty sequence as []
-            cases.append(dict(id=i + 1, frames=fr, opts=OPTSETS[(i + seed) % 4] if (i + seed) % 3 == 0 else []))
+            cases.append(dict(id=i + 1, frames=fr, opts=OPTSETS[(i + seed) % 4] if (i + seed) % 3 == 0 else [],
+                              bind=only if only is not None else BINDS[(i // 3 + seed) % 3]))
+        if only is not None:    # the sessions that deliver at least two messages are the ones that matter here: a sample of the rest
+            cases = [c for k, c in enumerate(cases) if sum(1 for f in c["frames"] if f in ("T", "B", "Ce")) >= 2 or k % 10 == 0]
+            cases = [dict(c, id=i + 1) for i, c in enumerate(cases)]
     cpath, trace = scratch.path("ws-cases.jsonl"), scratch.path("ws-trace.ndjson")
     with open(cpath, "w") as f:
         for c in cases:
@@ -69,17 +80,17 @@ def violations(prop, tier, scratch, harness, seed, replay_cases=None):
                 continue
             # class of the session: which kinds of frames it holds (not their number), and the option subset
             kinds = tuple(sorted(set(ev["frames"])))
-            key = (formula, kinds if len(kinds) <= 3 else kinds[:3] + ("...",), tuple(ev["opts"]))
+            key = (formula, kinds if len(kinds) <= 3 else kinds[:3] + ("...",), tuple(ev["opts"]) + ((ev.get("bind"),) if ev.get("bind") else ()))
             if key in viol:
                 viol[key]["more"] += 1
                 if len(ev["frames"]) < len(viol[key]["cases"][0]["frames"]):
                     viol[key]["cases"], viol[key]["observed"] = [by_id[case]], ev
                 continue
             viol[key] = dict(property=prop, formula=formula, seed=seed, cases=[by_id[case]], observed=ev, more=0, replay_driver="wssession",
-                             signature=dict(module="WsSession", formula=formula, proto="ws", frames=ev["frames"], opts=ev["opts"]))
+                             signature=dict(module="WsSession", formula=formula, proto="ws", frames=ev["frames"], opts=ev["opts"], bind=ev.get("bind", "")))
     for v in viol.values():
         ev = v["observed"]
-        v["what"] = "%s: frames %s opts %s -> handler saw %s latched=%s, server wrote %s (read ended: %s) %s" % (
-            v["formula"], ev["frames"], ev["opts"], [(r["k"], r["id"], r["same"]) if r["k"] == "msg" else r["k"] for r in ev["recv"]], ev["latched"],
+        v["what"] = "%s: binding %r frames %s opts %s -> handler saw %s latched=%s, server wrote %s (read ended: %s) %s" % (
+            v["formula"], ev.get("bind", ""), ev["frames"], ev["opts"], [(r["k"], r["id"], r["same"]) if r["k"] == "msg" else r["k"] for r in ev["recv"]], ev["latched"],
             [(s["k"], s["id"] or s["code"]) for s in ev["srv"]][:8], ev["readend"], ev["crash"][:80])
     return viol, stat, des
